@@ -43,6 +43,7 @@ func loadEngineTypes(repoDir string) (map[string]*types.Package, error) {
 }
 
 func checkC02(c *Ctx, r *Report) {
+	defer checkProcessWideState(c, r, "C02.g")
 	w := c.W
 	r.NotDecided = append(r.NotDecided, "the routers' own matching semantics at run time (trailing slashes, precedence, path cleaning): 'a request reaches that method and no other'", "user template overrides")
 	r.Assume = append(r.Assume, "Handlebars document order = output order; `{{#each}}` emits its program once per element")
